@@ -243,6 +243,7 @@ func (c *ChunkComposer) RunLoop(reader io.Reader, cb OnCompleteMessage) error {
 						return base.NewErrRtmpShortBuffer(int(aggregateStream.header.MsgLen), int(stream.msg.Len()), "parse rtmp aggregate sub message body")
 					}
 					aggregateStream.msg.buff = nazabytes.NewBufferRefBytes(stream.msg.buff.Peek(int(aggregateStream.header.MsgLen)))
+					aggregateStream.msg.Flush(aggregateStream.header.MsgLen)
 					stream.msg.Skip(aggregateStream.header.MsgLen)
 
 					// sub message回调给上层
